@@ -74,6 +74,9 @@ def strategy(tier):
         drop_core=st.sampled_from([None, None, None, None, "Swap", "Anonymous", "Referenced", "Pss",
                                    "Shared_Clean", "Shared_Dirty", "Private_Clean", "Private_Dirty"]),
         memtotal_kb=st.one_of(st.sampled_from([1, 4, 2**20, 2**34]), st.integers(1, 2**36)),
+        # memory is hot-added / ballooned: MemTotal changes, virtual_memory()
+        # reports the new total, memory_percent() is asked again
+        memtotal2_kb=st.one_of(st.none(), st.sampled_from([1, 8, 2**21]), st.integers(1, 2**36)),
         oneshot=st.booleans(),   # all calls inside one `with p.oneshot():` block
         memtype=st.sampled_from(["rss", "vms", "shared", "text", "lib", "data",
                                  "dirty", "uss", "pss", "swap", "bogus", "", "RSS", "size",
@@ -132,11 +135,14 @@ def run_case(case):
     existing = {ROOT + "/tmp/kept (deleted)"}
     for p_ in existing:
         k.set_file(p_, b"x")
-    k.set_file("/proc/meminfo", (
-        "MemTotal:       %8d kB\nMemFree:        %8d kB\nMemAvailable:   %8d kB\n"
-        "Buffers:               0 kB\nCached:                0 kB\nShmem: 0 kB\n"
-        "Active: 0 kB\nInactive: 0 kB\nSReclaimable: 0 kB\nSlab: 0 kB\n"
-        % (case["memtotal_kb"], 0, 0)).encode())
+    def meminfo(total_kb):
+        k.set_file("/proc/meminfo", (
+            "MemTotal:       %8d kB\nMemFree:        %8d kB\nMemAvailable:   %8d kB\n"
+            "Buffers:               0 kB\nCached:                0 kB\nShmem: 0 kB\n"
+            "Active: 0 kB\nInactive: 0 kB\nSReclaimable: 0 kB\nSlab: 0 kB\n"
+            % (total_kb, 0, 0)).encode())
+
+    meminfo(case["memtotal_kb"])
     k.spawn(pid, statm=tuple(case["statm"]), maps=maps, rollup=case["rollup"])
     out = {}
     with simk.installed(k), warnings.catch_warnings():
@@ -161,6 +167,13 @@ def run_case(case):
         except Exception as e:  # noqa: BLE001
             raise Violation("memory_percent-exception",
                             f"memory_percent({case['memtype']!r}) raised {e!r}") from None
+        if case.get("memtotal2_kb") and out["percent"][0] == "ok":
+            meminfo(case["memtotal2_kb"])
+            try:
+                vm_total = psutil.virtual_memory().total
+                out["percent2"] = (vm_total, p.memory_percent(case["memtype"]))
+            except Exception as e:  # noqa: BLE001
+                raise Violation("memory_percent-exception", f"after MemTotal changed: {e!r}") from None
 
     s = case["statm"]
     exp_info = dict(rss=s[1] * PAGE, vms=s[0] * PAGE, shared=s[2] * PAGE,
@@ -224,6 +237,13 @@ def run_case(case):
         exact = Fraction(100 * exp_full[mt], case["memtotal_kb"] * 1024)
         if kind != "ok" or abs(Fraction(val) - exact) > abs(exact) / 10**12:
             raise Violation("memory_percent", f"{mt}: {val!r} expected {float(exact)!r}")
+        if "percent2" in out:
+            vm_total, val2 = out["percent2"]
+            exact2 = Fraction(100 * exp_full[mt], case["memtotal2_kb"] * 1024)
+            if vm_total != case["memtotal2_kb"] * 1024 or abs(Fraction(val2) - exact2) > abs(exact2) / 10**12:
+                raise Violation("memory_percent", f"{mt}: MemTotal went {case['memtotal_kb']} -> {case['memtotal2_kb']} kB, "
+                                f"virtual_memory().total = {vm_total}, then memory_percent = {val2!r}, "
+                                f"expected {float(exact2)!r}")
 
     labels = set()
     paths = [r[2] for r in exp_rows]
